@@ -192,3 +192,24 @@ Definition sched_check (idx clause : N) (addrs evs : list Uint63.int) : list (N 
   | Some i => [(idx, 2, clause, i)]
   | None => []
   end.
+
+(* ---- k concurrent callers for one address with an existing entry, at one
+   instant, then sequential follow-ups: events = [nsetup] setup calls, then the
+   k concurrent calls in order of return, then the follow-ups.  Calls that
+   overlap may be serialised in any order, and at one instant for one address
+   the model's decisions do not depend on that order: the number admitted
+   among the k, and every setup and follow-up decision, must be the mirror
+   model's.  kind 2, clause 15 (a caller refused although the bucket had
+   tokens, or admitted although it had none). ---- *)
+Fixpoint count_true (l : list bool) : N :=
+  match l with [] => 0 | true :: r => 1 + count_true r | false :: r => count_true r end.
+Definition contention_check (idx : N) (addrs evs : list Uint63.int) (nsetup k : nat) : list (N * N * N * N) :=
+  let e := dec_evs (dec_addrs addrs) evs in
+  let ops := map (fun x => Arrive (fst (fst x)) (snd (fst x))) e in
+  let obs := map (fun x => snd x) e in
+  let m := decs (outs (step false) empty ops) in
+  let grp l := firstn k (skipn nsetup l) in
+  let rest l := firstn nsetup l ++ skipn (nsetup + k) l in
+  if negb (validb ops) then []
+  else if negb (count_true (grp m) =? count_true (grp obs)) then [(idx, 2, 15, N.of_nat nsetup)]
+  else match first_diff (rest m) (rest obs) 0 with Some i => [(idx, 2, 15, i)] | None => [] end.
